@@ -196,7 +196,7 @@ def job(u, case, tier, canary):
     return res
 
 
-CACHE = os.path.join(VERIF, ".cache")
+CACHE = os.environ.get("VERIF_CACHE_DIR") or os.path.join(VERIF, ".cache")   # content-hash keyed, may be shared between snapshots
 
 
 def cache_key(u, defs, extra):
